@@ -179,6 +179,10 @@ def generate(unit, repo_src=None):
             sp = sf.fns.get(key)
             g.owner_props.setdefault(key, list(sp.props) if (sp and sp.props) else list(sf.props))
         if sf.footer: _emit_text(g, sf.footer, sf.props, sf.name)
+    for i, ln in enumerate(g.lines):
+        if g.origin[i] is None and re.search(r'\b(assume|admit)\s*\(', ln) and not ln.strip().startswith('//') and 'assume_specification' not in ln:
+            d = 'assume in %s: %s' % (g.owner[i], ln.strip()[:140])
+            if d not in g.trusted and not any(d2.endswith(ln.strip()[:120]) for d2 in g.trusted): g.trusted.append(d)
     # fix up owners of inserted lines that precede the first original line of a function (attributes, spec lines)
     for i in range(len(g.lines) - 2, -1, -1):
         if g.origin[i] is None and g.owner[i] is None and g.owner[i + 1] and not str(g.owner[i + 1]).startswith('ghost:') and g.lines[i].strip().startswith('#['):
